@@ -8,3 +8,5 @@ INVARIANT SeqOK
 INVARIANT RankOK
 INVARIANT OtherOK
 INVARIANT Drift_Refusal
+INVARIANT Drift_Packing
+INVARIANT Drift_CircuitRepr
